@@ -210,13 +210,14 @@ Section Driver.
   Hypothesis Hc1 : 0 <= bt_c1 B.
   Hypothesis Hplo : 0 < bt_plo B.
   Hypothesis Hm : (0 < lb_m L)%nat.
-  Hypothesis Hdf : forall x, length (df x) = length x.
+  Variable n : nat.   (* the dimension of the problem *)
+  Hypothesis Hdf : forall x, length x = n -> length (df x) = n.
 
   (* one recorded iteration (f before, df0, alpha, f after): it starts at some x, goes along some s of the same
      dimension with df0 = <df x, s>, and either takes a positive step that satisfies the Armijo inequality or
      stays where it is *)
   Definition link (fp d a fn : R) : Prop :=
-    (exists x s, length s = length x /\ d = vdot ROps (df x) s /\ fp = f x /\ fn = f (vadd ROps x (vscale ROps s a))) /\
+    (exists x s, length x = n /\ length s = n /\ d = vdot ROps (df x) s /\ fp = f x /\ fn = f (vadd ROps x (vscale ROps s a))) /\
     ((0 < a /\ fn <= fp + bt_c1 B * a * d) \/ (a = 0 /\ fn = fp)).
 
   (* the chain of recorded objective values: each step starts at the value the previous one ended with *)
@@ -240,18 +241,18 @@ Section Driver.
   Qed.
 
   (* dimension discipline and "the stored gradient is the gradient at the stored point" *)
-  Definition inv (n : nat) (st : lb_state) : Prop :=
+  Definition inv (st : lb_state) : Prop :=
     length (st_x st) = n /\ st_g st = df (st_x st) /\ length (st_g_prev st) = n /\ length (st_dx st) = n /\
     hist n (lb_m L) (st_dxh st) /\ hist n (lb_m L) (st_dgh st).
 
-  Lemma update_state_spec n st st1 d0 :
-    inv n st -> update_state ROps f df L B st = Some (st1, d0) ->
-    inv n st1 /\ st_f_prev st1 = f (st_x st) /\ st_f st1 = f (st_x st1) /\
+  Lemma update_state_spec st st1 d0 :
+    inv st -> update_state ROps f df L B st = Some (st1, d0) ->
+    inv st1 /\ st_f_prev st1 = f (st_x st) /\ st_f st1 = f (st_x st1) /\
     link (st_f_prev st1) d0 (st_alpha st1) (st_f st1).
   Proof.
     intros [Hx [Hg [Hgp [Hdx [Hhx Hhg]]]]]. unfold update_state.
     pose proof (two_loops_length n (lb_m L) (st_iter st) (st_g st) (st_rho st) (st_dxh st) (st_dgh st) (st_tla st)
-                  Hm (eq_trans (f_equal (@length R) Hg) (eq_trans (Hdf _) Hx)) Hhx Hhg) as Hs.
+                  Hm (eq_trans (f_equal (@length R) Hg) (Hdf _ Hx)) Hhx Hhg) as Hs.
     destruct (two_loops ROps (lb_m L) (st_iter st) (st_g st) (st_rho st) (st_dxh st) (st_dgh st) (st_tla st)) as [s al].
     cbn [fst] in Hs.
     set (phi := fun a => f (vadd ROps (vscale ROps s a) (st_x st))).
@@ -263,100 +264,104 @@ Section Driver.
       by (rewrite vadd_length, vscale_length, Hs; lia).
     split.
     { unfold inv. cbn [st_x st_g st_g_prev st_dx st_dxh st_dgh].
-      split; [rewrite Hx'; exact Hx|]. split; [reflexivity|]. split; [rewrite Hdf; exact Hx|].
+      split; [rewrite Hx'; exact Hx|]. split; [reflexivity|]. split; [apply Hdf; exact Hx|].
       split; [rewrite vscale_length; exact Hs|]. split; assumption. }
     split; [reflexivity|]. split; [reflexivity|]. split.
-    - exists (st_x st), s. repeat split; try reflexivity; [lia | rewrite Hg; reflexivity].
+    - exists (st_x st), s. repeat split; try reflexivity; [exact Hx | exact Hs | rewrite Hg; reflexivity].
     - destruct Hcase as [[Hpos [Hfx Hle]]|[Ha0 Hf0]].
       + left. split; [exact Hpos|]. rewrite vadd_comm_R. fold (phi alpha). rewrite <- Hfx. exact Hle.
       + right. split; [exact Ha0|]. subst alpha. rewrite vadd_zero_step by lia. reflexivity.
   Qed.
 
-  Lemma assess_keeps n st : inv n st -> inv n (snd (assess_convergence ROps L st)) /\
+  Lemma assess_keeps st : inv st -> inv (snd (assess_convergence ROps L st)) /\
                             st_x (snd (assess_convergence ROps L st)) = st_x st.
   Proof. intros H. split; [exact H | reflexivity]. Qed.
-  Lemma hessian_keeps n st : inv n st -> inv n (update_hessian ROps L st) /\ st_x (update_hessian ROps L st) = st_x st.
+  Lemma hessian_keeps st : inv st -> inv (update_hessian ROps L st) /\ st_x (update_hessian ROps L st) = st_x st.
   Proof.
     intros [Hx [Hg [Hgp [Hdx [Hhx Hhg]]]]]. unfold update_hessian.
     destruct (is_infinite _ _); [split; [unfold inv; repeat (split; [assumption|]); assumption | reflexivity]|].
     split; [|reflexivity]. unfold inv. cbn [st_x st_g st_g_prev st_dx st_dxh st_dgh].
     repeat (split; [assumption|]). split.
     - apply hist_upd; [exact Hhx | exact Hdx].
-    - apply hist_upd; [exact Hhg|]. rewrite vsub_length, Hg, Hdf, Hx, Hgp. lia.
+    - apply hist_upd; [exact Hhg|]. rewrite vsub_length, Hg, (Hdf _ Hx), Hgp. lia.
   Qed.
-  Lemma bump_keeps n st : inv n st -> inv n (bump_iter st).
+  Lemma bump_keeps st : inv st -> inv (bump_iter st).
   Proof. intros H. exact H. Qed.
 
-  Lemma opt_loop_mono n fuel : forall st acc st' tr conv,
-    inv n st ->
+  Lemma opt_loop_mono fuel : forall st acc st' tr conv,
+    inv st ->
     opt_loop ROps f df L B fuel st acc = Some (st', tr, conv) ->
-    exists suffix, tr = rev acc ++ suffix /\ trace_mono (f (st_x st)) suffix (f (st_x st')).
+    exists suffix, tr = rev acc ++ suffix /\ trace_mono (f (st_x st)) suffix (f (st_x st')) /\ length (st_x st') = n.
   Proof.
     induction fuel as [|k IH]; intros st acc st' tr conv Hinv E; cbn [opt_loop] in E.
-    - inversion E; subst. exists []. rewrite app_nil_r. split; reflexivity.
+    - inversion E; subst. exists []. rewrite app_nil_r. split; [reflexivity|]. split; [reflexivity | apply Hinv].
     - destruct (update_state ROps f df L B st) as [[st1 d0]|] eqn:Eu; [|discriminate].
-      destruct (update_state_spec n st st1 d0 Hinv Eu) as [Hinv1 [H1 [H2 Hl]]].
+      destruct (update_state_spec st st1 d0 Hinv Eu) as [Hinv1 [H1 [H2 Hl]]].
       destruct (assess_convergence ROps L st1) as [c st2] eqn:Ea.
-      destruct (assess_keeps n st1 Hinv1) as [Hinv2 Hx2]. rewrite Ea in Hinv2, Hx2. cbn [snd] in Hinv2, Hx2.
+      destruct (assess_keeps st1 Hinv1) as [Hinv2 Hx2]. rewrite Ea in Hinv2, Hx2. cbn [snd] in Hinv2, Hx2.
       destruct c.
       + inversion E; subst. exists [(st_f_prev st1, d0, st_alpha st1, st_f st1)]. cbn [rev]. split; [reflexivity|].
+        split; [|cbn [bump_iter st_x]; apply Hinv2].
         cbn. repeat split; try assumption; try apply Hl. rewrite H2. cbn. rewrite Hx2. reflexivity.
-      + destruct (hessian_keeps n st2 Hinv2) as [Hinv3 Hx3].
-        destruct (IH _ _ _ _ _ (bump_keeps n _ Hinv3) E) as [suf [Htr Hmo]].
+      + destruct (hessian_keeps st2 Hinv2) as [Hinv3 Hx3].
+        destruct (IH _ _ _ _ _ (bump_keeps _ Hinv3) E) as [suf [Htr [Hmo Hlen]]].
         exists ((st_f_prev st1, d0, st_alpha st1, st_f st1) :: suf). split.
         * rewrite Htr. cbn [rev]. rewrite <- app_assoc. reflexivity.
-        * cbn. repeat split; try assumption; try apply Hl.
+        * split; [|exact Hlen]. cbn. repeat split; try assumption; try apply Hl.
           replace (f (st_x (bump_iter (update_hessian ROps L st2)))) with (st_f st1) in Hmo; [exact Hmo|].
           rewrite H2. cbn [bump_iter st_x]. rewrite Hx3, Hx2. reflexivity.
   Qed.
 
-  (* lbfgs_monotone: for every objective f (differentiable or not), every function df that returns vectors of
-     the dimension of its argument, every parameter setting with m > 0: if the optimiser returns, its recorded
+  (* lbfgs_monotone: for every objective f (differentiable or not), every function df that maps vectors of the
+     problem's dimension n to vectors of dimension n, every parameter setting with m > 0: if the optimiser returns, its recorded
      trace is a chain from f(x0) to f(returned x) in which every step either satisfies the Armijo inequality at
      a positive step length or stays where it is; so along any run in which every step that moved went along
      a non-ascent direction the objective never increases, and the returned point is no worse than the start. *)
   Lemma lbfgs_monotone x0 st tr conv :
+    length x0 = n ->
     optimize ROps f df L B x0 = Some (st, tr, conv) ->
-    trace_mono (f x0) tr (f (st_x st)) /\ (descent_trace tr -> f (st_x st) <= f x0).
+    trace_mono (f x0) tr (f (st_x st)) /\ length (st_x st) = n /\ (descent_trace tr -> f (st_x st) <= f x0).
   Proof.
     unfold optimize. cbn [init_state st_x st_x_prev st_f st_f_prev st_g_prev st_rho st_dxh st_dgh st_dx st_tla st_s st_alpha].
-    intros E.
-    assert (Hmo : trace_mono (f x0) tr (f (st_x st))).
+    intros Hx0 E.
+    assert (Hmo : trace_mono (f x0) tr (f (st_x st)) /\ length (st_x st) = n).
     { destruct (oltb ROps _ _) in E.
-      - inversion E; subst. reflexivity.
-      - assert (Hinv : inv (length x0)
+      - inversion E; subst. split; [reflexivity | exact Hx0].
+      - assert (Hinv : inv
                  (mkSt x0 x0 (nan ROps) (nan ROps) (df x0) x0 (repeat (o0 ROps) (lb_m L)) (repeat x0 (lb_m L))
                        (repeat x0 (lb_m L)) x0 (repeat (o0 ROps) (lb_m L)) 0%nat 0%nat x0 (o1 ROps))).
         { unfold inv. cbn [st_x st_g st_g_prev st_dx st_dxh st_dgh].
-          repeat (split; [reflexivity|]). split; apply hist_repeat; reflexivity. }
-        destruct (opt_loop_mono (length x0) _ _ _ _ _ _ Hinv E) as [suf [Htr Hmo]]. cbn in Htr. subst. exact Hmo. }
-    split; [exact Hmo|]. intros Hd. eapply trace_mono_le; eassumption.
+          split; [exact Hx0|]. split; [reflexivity|]. split; [exact Hx0|]. split; [exact Hx0|].
+          split; apply hist_repeat; exact Hx0. }
+        destruct (opt_loop_mono _ _ _ _ _ _ Hinv E) as [suf [Htr [Hmo Hlen]]]. cbn in Htr. subst. split; assumption. }
+    destruct Hmo as [Hmo Hlen]. split; [exact Hmo|]. split; [exact Hlen|]. intros Hd. eapply trace_mono_le; eassumption.
   Qed.
 
   (* the convex route: if f lies above its tangents (with df as the slope) and c1 < 1, then a positive step that
      passes the Armijo test can only have been taken along a non-ascent direction — so the descent hypothesis
      holds on EVERY returned run and the objective never increases, whatever the two-loop recursion produced *)
   Hypothesis Hc1lt : bt_c1 B < 1.
-  Hypothesis Hconv : forall x s a, length s = length x ->
+  Hypothesis Hconv : forall x s a, length x = n -> length s = n ->
     f x + a * vdot ROps (df x) s <= f (vadd ROps x (vscale ROps s a)).
 
   Lemma trace_mono_descent fstart tr fend : trace_mono fstart tr fend -> descent_trace tr.
   Proof.
     revert fstart. induction tr as [|[[[fp d] a] fn] rest IH]; intros fstart Hmo; [constructor|].
-    cbn in Hmo. destruct Hmo as [_ [[[x [s [Hls [Hd [Hfp Hfn]]]]] Hl] Hrest]].
+    cbn in Hmo. destruct Hmo as [_ [[[x [s [Hlx [Hls [Hd [Hfp Hfn]]]]]] Hl] Hrest]].
     constructor; [|eapply IH; exact Hrest]. cbn. intros Ha.
     destruct Hl as [[_ Hle]|[Ha0 _]]; [|lra].
-    pose proof (Hconv x s a Hls) as Hc. rewrite <- Hd, <- Hfp, <- Hfn in Hc.
+    pose proof (Hconv x s a Hlx Hls) as Hc. rewrite <- Hd, <- Hfp, <- Hfn in Hc.
     assert ((1 - bt_c1 B) * (a * d) <= 0) by lra.
     assert (a * d <= 0) by nra. nra.
   Qed.
 
   Lemma lbfgs_monotone_convex x0 st tr conv :
+    length x0 = n ->
     optimize ROps f df L B x0 = Some (st, tr, conv) ->
-    descent_trace tr /\ f (st_x st) <= f x0.
+    descent_trace tr /\ length (st_x st) = n /\ f (st_x st) <= f x0.
   Proof.
-    intros E. destruct (lbfgs_monotone x0 st tr conv E) as [Hmo Hle].
-    pose proof (trace_mono_descent _ _ _ Hmo) as Hd. split; [exact Hd | exact (Hle Hd)].
+    intros Hx0 E. destruct (lbfgs_monotone x0 st tr conv Hx0 E) as [Hmo [Hlen Hle]].
+    pose proof (trace_mono_descent _ _ _ Hmo) as Hd. split; [exact Hd|]. split; [exact Hlen | exact (Hle Hd)].
   Qed.
 End Driver.
 
